@@ -28,6 +28,9 @@ type c16Case struct {
 	Text    string            `json:"text,omitempty"`    // kind text: the literal input
 	At      int               `json:"at,omitempty"`      // overlong: function index before which the long line goes; truncate: cut position selector
 	LongLen int               `json:"longlen,omitempty"` // overlong: length of the line
+	// LongHeader (overlong): the long line is not an instruction of a function of its own but the header line of function
+	// At itself (a symbol with a very long instantiated type)
+	LongHeader bool `json:"long_header,omitempty"`
 	Path    string            `json:"path,omitempty"`    // unreadable: path to offer
 }
 
@@ -186,6 +189,7 @@ func drawC16(t *rapid.T) c16Case {
 		c.Kind, c.Listing = "overlong", drawListing(t)
 		c.At = rapid.IntRange(0, len(c.Listing.Funcs)).Draw(t, "at")
 		c.LongLen = []int{65536, 65537, 70000, 200000, 64 * 1024 * 3}[rapid.IntRange(0, 4).Draw(t, "longlen")]
+		c.LongHeader = rapid.IntRange(0, 2).Draw(t, "longHeader") == 0
 	case k < 9:
 		c.Kind, c.Listing = "truncate", drawListing(t)
 		c.At = rapid.IntRange(0, 1<<20).Draw(t, "cut")
@@ -403,6 +407,15 @@ func checkC16(raw json.RawMessage) (ev.Result, error) {
 		before, after := strings.Join(chunks[:at], ""), strings.Join(chunks[at:], "")
 		// put the long line inside a function of its own so that function scoping is not disturbed
 		text := before + "TEXT main.long(SB) /src/file.go\n" + long + after
+		if c.LongHeader && at < len(chunks) {
+			// the header of function `at` itself is the long line; everything else stays as it is
+			body := chunks[at]
+			if i := strings.Index(body, "\n"); i >= 0 && strings.HasPrefix(body, "TEXT ") {
+				body = "TEXT main.long[go.shape.struct { F " + strings.Repeat("x", c.LongLen) + " }](SB) /src/file.go" + body[i:]
+				text = before + body + strings.Join(chunks[at+1:], "")
+				res.Classes = append(res.Classes, "overlong-line-is-a-function-header")
+			}
+		}
 		p, _ := writeTemp(dir, "long.txt", text)
 		r, err, pan := extract(archName, p)
 		if pan != nil {
@@ -430,8 +443,8 @@ func checkC16(raw json.RawMessage) (ev.Result, error) {
 		}
 		want := append(append([]string{}, keys(rb)...), keys(ra)...)
 		if !reflect.DeepEqual(keys(r), want) && !(len(r) == 0 && len(want) == 0) {
-			return res, fmt.Errorf("a %d-byte line at the %s of the listing cannot be read by the scanner, yet no error is returned and the result %v stops short of the full result %v: partial result without error",
-				c.LongLen, pos, keys(r), want)
+			return res, fmt.Errorf("a %d-byte line (function header: %v) at the %s of the listing: no error is returned, but the result %v is not the result %v of the same listing without the long line: partial or mis-attributed result without error",
+				c.LongLen, c.LongHeader, pos, keys(r), want)
 		}
 		res.Classes = append(res.Classes, "overlong:read-to-the-end")
 		res.NonTrivial = len(ra) > 0
